@@ -14,23 +14,23 @@ EXTENDS Integers, Sequences, TLC, Json, IOUtils
 Trace == ndJsonDeserialize(IOEnv.TRACE)
 Bound == 10     \* "a small fixed number of hops": the code stops at 2, net/http at 10; the driver cuts an endless chain at 50 requests
 
-VARIABLES l, n, sawHttps, filled
-vars == <<l, n, sawHttps, filled>>
+VARIABLES l, n, sawHttps, filled, acthost     \* acthost: the identity whose batch action handed out the value "act" (storage runs)
+vars == <<l, n, sawHttps, filled, acthost>>
 E == Trace[l]
 Is(e) == l <= Len(Trace) /\ E.ev = e /\ l' = l + 1
 
-Init  == l = 1 /\ n = 0 /\ sawHttps = FALSE /\ filled = {}
-Reset == Is("reset") /\ n' = 0 /\ sawHttps' = FALSE /\ filled' = {}
+Init  == l = 1 /\ n = 0 /\ sawHttps = FALSE /\ filled = {} /\ acthost = "api"
+Reset == Is("reset") /\ n' = 0 /\ sawHttps' = FALSE /\ filled' = {} /\ acthost' = E.acthost
 Req   == /\ Is("req")
-         /\ E.auth \in {"none", E.host}                                  \* Confined
+         /\ (E.auth \in {"none", E.host} \/ (E.auth = "act" /\ E.host = acthost))   \* Confined
          /\ LET chained == E.after = "redir" IN
             /\ (E.scheme = "http" /\ chained => ~sawHttps)               \* NoDowngrade
             /\ n' = (IF chained THEN n + 1 ELSE 0) /\ n' <= Bound        \* ChainBounded
             /\ sawHttps' = ((chained /\ sawHttps) \/ E.scheme = "https")
-         /\ UNCHANGED filled
-Fill  == Is("fill") /\ filled' = filled \cup {E.host} /\ UNCHANGED <<n, sawHttps>>
-Judge == (Is("approve") \/ Is("reject")) /\ E.host \in filled /\ UNCHANGED <<n, sawHttps, filled>>   \* HelperSound
-Done  == Is("done") /\ UNCHANGED <<n, sawHttps, filled>>
+         /\ UNCHANGED <<filled, acthost>>
+Fill  == Is("fill") /\ filled' = filled \cup {E.host} /\ UNCHANGED <<n, sawHttps, acthost>>
+Judge == (Is("approve") \/ Is("reject")) /\ E.host \in filled /\ UNCHANGED <<n, sawHttps, filled, acthost>>   \* HelperSound
+Done  == Is("done") /\ UNCHANGED <<n, sawHttps, filled, acthost>>
 Next  == Reset \/ Req \/ Fill \/ Judge \/ Done
 Spec  == Init /\ [][Next]_vars
 Accepted == TLCGet("stats").diameter - 1 = Len(Trace)
